@@ -733,6 +733,12 @@ struct ArraysWorld : World {
 			bool loose = bt == 3 && was_shared_b && any_active(MB[h]);
 			if (loose) st.hit("probe:shared_active_commands_touched");
 			auto reread = [&](const char *why) { if (fired) fault_seen = true; buffer *b = B[h].buf; size_t k = b ? b->_used / es : 0; MB[h].clear(); for (size_t i = 0; i < k; ++i) MB[h].push_back(read((const uint8_t *) (b + 1) + i * es, why, h, i)); };
+			// a private copy that was reported as made holds every element of the original, also when an allocation failed on the way
+			auto intact = [&](const char *what) {
+				buffer *b = B[h].buf; size_t k = b ? b->_used / es : 0;
+				for (size_t i = 0; i < MB[h].size() && i < k; ++i) { uint32_t got = read((const uint8_t *) (b + 1) + i * es, what, h, i);
+					if (got != MB[h][i]) fail("wrong-content", "%s succeeded although an allocation failed, and element %zu of the private copy reads %u instead of %u", what, i, got, MB[h][i]); }
+			};
 			switch (op.kind) {
 			case OP_B_CLONE: { int rc; { Sut s(failn); rc = mpt_array_clone(AR(B[h]), AR(B[h2])); fired = g.fired; } log.ev("B_CLONE %d <- %d -> %d", h, h2, rc); if (rc >= 0) { MB[h] = MB[h2]; outcome = 1; } break; }
 			case OP_B_RELEASE: { { Sut s; mpt_array_clone(AR(B[h]), 0); } MB[h].clear(); log.ev("B_RELEASE %d", h); outcome = 1; break; }
@@ -776,6 +782,7 @@ struct ArraysWorld : World {
 				log.ev("B_WRITE %d pos=%zu n=%zu%s -> %s", h, pos, n, fired ? " allocfail" : "", r ? "ok" : "null");
 				if (r) {
 					if (B[h].buf->get_flags() & BufferShared) fail("still-shared", "slice handed out a writable region of a buffer that is still shared");
+					if (fired && was_shared_b && !loose && bt != 2) { st.hit("probe:private_copy_under_allocfail"); intact("making the handle private (slice)"); }
 					if (pos + n > MB[h].size()) MB[h].resize(pos + n, 0);
 					for (size_t i = 0; i < n; ++i) { uint32_t v = fresh_val(); assign((uint8_t *) r + i * es, v); MB[h][pos + i] = v; }
 					outcome = 1;
